@@ -19,8 +19,11 @@ RULE = ('real OntologyStore with injected fake release / remote services. (1) se
         'of other entries, the fetch log and the result (loaded == loading the remote bytes directly / failed) must equal the Lean '
         'model\'s world; (2) crash points: each load re-run in a forked child that _exit()s at the j-th I/O boundary (audit events open/'
         'mkdir/rename/remove/rmtree/mkstemp, os.stat, fake remote fetch/read, write proxy) for every j: surviving tree must satisfy the '
-        'invariant (every file at a cache location byte-identical to the remote payload), a healthy reload must succeed, the boundary-kind '
-        'sequence must be the model\'s step sequence and no cache path may ever be opened for writing; (3) schedules: two real loader '
+        'invariant (every file at a cache location byte-identical to the remote payload), a healthy reload must succeed, no cache path may '
+        'ever be opened for writing, and the observed trace of file-system primitives (with the bytes the rename source holds at that moment) '
+        'must be Disciplined according to the order-free model Hpv.StoreTrace (whether the boundary kinds also follow the step sequence of '
+        'Hpv.Store.stepLoader is recorded, not demanded; a loader with hundreds of boundaries is killed at a sample of them: ends and middle of '
+        'every run of equal boundaries); (3) schedules: two real loader '
         'threads (same key / different keys / load vs clear) serialised by a baton handed over only at boundaries, all two-switch '
         'schedules plus random ones, invariant evaluated on the real tree at every boundary; (4) the SHIPPED GitHubOntologyReleaseService / '
         'GitHubRemoteOntologyService behind a fake `urlopen` (tag listings in which every day 01..31 and every month 01..12 is the '
@@ -89,6 +92,7 @@ class Instr:
     root = None          # store dir (absolute) to watch; None = off
     on_boundary = None   # callable(kind, detail)
     write_plan = None    # None or k: the next write under root fails after k bytes
+    rename_info = None   # (source path, bytes it holds) of the rename whose boundary is being reported
 
     quiet = threading.local()   # set while the harness itself inspects the tree
 
@@ -117,6 +121,12 @@ def _audit(event, args):
             Instr.boundary(event, os.path.abspath(os.fsdecode(args[0])))
     elif event == 'os.rename':
         if _under_root(args[1]):
+            try:
+                with _real_open(args[0], 'rb') as fh:
+                    held = fh.read()
+            except Exception:  # noqa
+                held = None
+            Instr.rename_info = (os.path.abspath(os.fsdecode(args[0])), held)      # what is about to be moved, as it is NOW
             Instr.boundary('rename', os.path.abspath(os.fsdecode(args[1])))
     elif event == 'tempfile.mkstemp':
         Instr.boundary('mkstemp', str(args[0]))
@@ -183,10 +193,21 @@ def install():
 
     def open_(file, mode='r', *a, **k):
         f = _real_open(file, mode, *a, **k)
-        if Instr.root is not None and isinstance(file, (str, bytes)) and any(c in mode for c in 'wax+') and 'b' in mode and _under_root(file):
-            return WriteProxy(f)
+        if Instr.root is not None and any(c in mode for c in 'wax+') and 'b' in mode:
+            if isinstance(file, (str, bytes)):
+                target = os.path.abspath(os.fsdecode(file))
+            elif isinstance(file, int):
+                try:
+                    target = os.readlink(f'/proc/self/fd/{file}')
+                except OSError:
+                    target = ''
+            else:
+                target = ''
+            if target.startswith(Instr.root):
+                return WriteProxy(f)
         return f
     builtins.open = open_
+    io.open = open_          # `tempfile` and friends look `open` up in `io`
 
 
 # ------------------------------------------------------------------ fakes
@@ -321,7 +342,8 @@ def run_history(ctx, ops, relative, stream):
             os.chdir(parent)
         store, rem = make_store(dname if relative else abs_dir, plan_holder)
         Instr.root, Instr.on_boundary = abs_dir, None
-        for i, (op, m) in enumerate(zip(ops, model)):
+        for i in range(len(ops)):
+            op, m = ops[i], model[i]
             plan_holder.clear()
             Instr.write_plan = None
             try:
@@ -346,6 +368,15 @@ def run_history(ctx, ops, relative, stream):
                     res = {'latest': os.path.basename(path).split('.', 1)[1][:-5]}
             except Exception as e:  # noqa
                 res = f'failed:{type(e).__name__}'
+            if op[0] == 'load' and op[3].get('write') is not None and Instr.write_plan is not None:
+                # the injected write fault never fired (a cache hit, or the code writes through a channel the harness does not
+                # intercept): what the model predicts must not assume it did
+                ctx.count('history.write-fault-not-reached')
+                ops = [list(o) for o in ops]
+                ops[i] = [op[0], op[1], op[2], {k: v for k, v in op[3].items() if k != 'write'}, op[4]]
+                req['ops'] = model_ops(ops)
+                model = run_driver([req])[0]
+                m = model[i]
             cache, other = tree(abs_dir)
             mw = m['world']
             m_cache = {(ty, r): bytes(c) for ty, r, c in mw['cache']}
@@ -426,10 +457,15 @@ def crash_points(ctx, prior_ops, target, stream):
                 pass
 
         def on_boundary(kind, detail):
-            trace.append([kind, detail])
+            if kind == 'rename' and Instr.rename_info is not None:
+                src, held = Instr.rename_info
+                trace.append([kind, detail, src, None if held is None else list(held)])
+            else:
+                trace.append([kind, detail])
             if kill_at is not None and len(trace) == kill_at:
-                os.write(report_fd, json.dumps(trace).encode())
+                os.write(report_fd, json.dumps([t[:2] for t in trace]).encode())
                 os._exit(77)
+        initial, _ = tree(abs_dir)          # what the earlier operations left at cache locations
         Instr.root, Instr.on_boundary = abs_dir, on_boundary
         plan_holder.update({k: v for k, v in target[3].items() if k != 'write'})
         Instr.write_plan = target[3].get('write')
@@ -438,7 +474,7 @@ def crash_points(ctx, prior_ops, target, stream):
         except Exception as e:  # noqa
             res = f'failed:{type(e).__name__}'
         Instr.root = None
-        os.write(report_fd, json.dumps({'trace': trace, 'res': res}).encode())
+        os.write(report_fd, json.dumps({'trace': trace, 'res': res, 'initial': [[ty, r, list(c)] for (ty, r), c in initial.items()]}).encode())
         os._exit(0)
 
     def fork_run(kill_at):
@@ -469,26 +505,70 @@ def crash_points(ctx, prior_ops, target, stream):
     if rep is None:
         ctx.violation('crash:uninterrupted-run-died', {'case': {'kind': 'crash', 'prior_ops': prior_ops, 'target': target}}, no_input=False)
         return
-    trace = rep['trace']
+    full_trace = rep['trace']
+    trace = [t[:2] for t in full_trace]
     kinds = [k for k, _ in trace]
     cache_paths = {os.path.join(abs_dir, {'HPO': 'HP', 'MAxO': 'MAXO', 'MONDO': 'MONDO'}[ty], f'{ {"HPO": "hp", "MAxO": "maxo", "MONDO": "mondo"}[ty] }.{r}.json') for ty, r in all_keys()}
-    # step structure of an uninterrupted run vs the model's step sequence
+    # step structure of an uninterrupted run vs the step sequence of the loader model (Hpv.Store.stepLoader): information only.
+    # A loader that does its steps in another order or in another number of pieces is covered by the second model
+    # (Hpv.StoreTrace: ANY program over file-system primitives), whose hypothesis is evaluated on the observed trace below.
     if isinstance(rep['res'], dict) and 'fetch' in kinds:
         seq = [k for k, d in trace if k in EXPECTED_ORDER and not (k == 'open:r' and not d.endswith('.json'))]
         first = []
         for k in seq:
             if k not in first:
                 first.append(k)
-        if first != EXPECTED_ORDER or 'stat' not in kinds[:kinds.index('fetch')]:
-            ctx.violation('crash:step-structure', {'case': {'kind': 'crash', 'prior_ops': prior_ops, 'target': target}, 'impl_boundaries': kinds,
-                                                   'model_steps': ['isfile(stat)'] + EXPECTED_ORDER,
-                                                   'theorem': 'correspondence of the loader step function (Hpv.Store.stepLoader)'}, no_input=True)
+        same = first == EXPECTED_ORDER and 'stat' in kinds[:kinds.index('fetch')]
+        ctx.count('crash.step-structure.' + ('as-in-the-loader-model' if same else 'different-from-the-loader-model'))
+        if not same and not any(n.startswith('C07: the loader') for n in ctx.notes):
+            ctx.notes.append(f'C07: the loader of the working tree does its I/O steps in another order / number than Hpv.Store.stepLoader '
+                             f'({first} vs {EXPECTED_ORDER}); crash safety is decided through Hpv.StoreTrace (discipline of the observed trace)')
+    key_paths = {}
+    for k, (ty, r) in enumerate(all_keys()):
+        key_paths[os.path.join(abs_dir, {'HPO': 'HP', 'MAxO': 'MAXO', 'MONDO': 'MONDO'}[ty], f'{ {"HPO": "hp", "MAxO": "maxo", "MONDO": "mondo"}[ty] }.{r}.json')] = k
+    others = {}
+
+    def wire_path(pth):
+        if pth in key_paths:
+            return ['cache', key_paths[pth]]
+        return ['other', others.setdefault(pth, len(others))]
+    t_ops, origin = [], []          # model operations and the boundary each one comes from (-1: the state the earlier operations left)
+    for n0, (ty, r, content) in enumerate(rep.get('initial', [])):
+        # a file the earlier operations left at a cache location enters the model through the same gate as a rename (it must be complete)
+        where = next((['cache', k] for k, key in enumerate(all_keys()) if key == (ty, r)), ['cache', 10 ** 5 + n0])
+        src = ['other', 10 ** 6 + n0]
+        t_ops += [['create', src], ['append', src, content], ['rename', src, where]]
+        origin += [-1, -1, -1]
+    for j, t in enumerate(full_trace):
+        kind, detail = t[0], t[1]
+        if kind == 'open:w':
+            new = [['create', wire_path(detail)]]
+        elif kind == 'rename':
+            src = wire_path(t[2] if len(t) > 2 else detail + '#unknown-source')
+            new = ([['create', src], ['append', src, t[3]]] if len(t) > 3 and t[3] is not None else []) + [['rename', src, wire_path(detail)]]
+        elif kind == 'os.remove':
+            new = [['remove', wire_path(detail)]]
+        elif kind == 'shutil.rmtree':
+            new = [['remove', wire_path(p_)] for p_ in list(key_paths) + list(others) if p_.startswith(detail.rstrip('/') + '/')] or [['noop']]
+        else:
+            new = [['noop']]
+        t_ops += new
+        origin += [j] * len(new)
+    verdict = run_driver([{'op': 'store.trace', 'remote': [[k, list(REMOTE[key])] for k, key in enumerate(all_keys())], 'ops': t_ops}])[0]
+    ctx.count('crash.trace.' + ('disciplined' if verdict.get('disciplined') else 'NOT-disciplined'))
+    undisciplined = None
+    if not verdict.get('disciplined'):
+        b = origin[verdict['first_bad']] if verdict.get('first_bad') is not None else None
+        undisciplined = {'first_bad_boundary': b, 'boundary': None if b is None or b < 0 else trace[b], 'model_op': t_ops[verdict['first_bad']][:2] if verdict.get('first_bad') is not None else verdict}
     for k, d in trace:
         if k == 'open:w' and any(d == cp for cp in [p.replace(abs_dir, abs_dir) for p in cache_paths]):
             ctx.violation('crash:cache-path-opened-for-writing', {'case': {'kind': 'crash', 'prior_ops': prior_ops, 'target': target},
                                                                   'impl_boundaries': trace, 'theorem': 'Hpv.Props.C07.no_incomplete_file (model: cache paths only appear as rename targets)'})
             return
-    for j in range(1, len(trace) + 1):
+    points = kill_points(trace, 120 if ctx.tier == 'thorough' else 48)
+    if len(points) < len(trace):
+        ctx.count('crash.kill-points-sampled(loader with very many boundaries)')
+    for j in points:
         parent, abs_dir, rep_j, code = fork_run(j)
         try:
             ctx.case(['crash', prior_ops, target, j], True, stream,
@@ -513,11 +593,17 @@ def crash_points(ctx, prior_ops, target, stream):
                     prob = f'healthy reload failed: {type(e).__name__}: {e}'
             if prob:
                 ctx.violation(f'crash:{trace[j - 1][0]}', {'case': {'kind': 'crash', 'prior_ops': prior_ops, 'target': target, 'kill_at_boundary': j},
-                                                          'boundaries': kinds, 'impl': prob,
-                                                          'theorem': 'Hpv.Props.C07.no_incomplete_file / later_load_succeeds'})
+                                                          'boundaries': kinds, 'impl': prob, 'trace_discipline': undisciplined or 'holds',
+                                                          'theorem': 'Hpv.Props.C07.no_incomplete_file / any_program_no_incomplete_file / later_load_succeeds'})
                 return
         finally:
             shutil.rmtree(parent, ignore_errors=True)
+    if undisciplined:
+        # the hypothesis of the theorem does not hold for what the code did, and no kill point exhibited a failure
+        ctx.violation('crash:trace-not-disciplined', {'case': {'kind': 'crash', 'prior_ops': prior_ops, 'target': target}, 'impl_boundaries': kinds,
+                                                      'broken_obligation': undisciplined,
+                                                      'theorem': 'Hpv.Props.C07.any_program_no_incomplete_file (hypothesis Disciplined, evaluated on the observed trace)'},
+                      no_input=True)
 
 
 # ------------------------------------------------------------------ (3) schedules
@@ -623,6 +709,35 @@ def run_schedule(ctx, jobs, schedule, stream):
         shutil.rmtree(parent, ignore_errors=True)
 
 
+def spread(lo, hi, step, cap):
+    """lo, lo+step, ... up to hi; when these are more than `cap`, `cap` of them evenly spread (both ends kept)"""
+    vals = list(range(lo, hi + 1, step))
+    if len(vals) <= cap:
+        return vals
+    return sorted({vals[round(i * (len(vals) - 1) / (cap - 1))] for i in range(cap)})
+
+
+def kill_points(trace, cap):
+    """the boundaries (1-based) before which the child is killed: all of them, or - for a loader with very many boundaries - the ends
+    and the middle of every run of equal boundaries plus an even spread"""
+    n = len(trace)
+    if n <= cap:
+        return list(range(1, n + 1))
+    keep, i = set(), 0
+    while i < n:
+        j = i
+        while j + 1 < n and trace[j + 1][0] == trace[i][0]:
+            j += 1
+        keep.update({i + 1, min(i + 2, j + 1), (i + j) // 2 + 1, max(j, i + 1), j + 1})
+        i = j + 1
+    if len(keep) > cap:
+        ordered = sorted(keep)
+        keep = {ordered[k] for k in spread(0, len(ordered) - 1, 1, cap)}
+    else:
+        keep.update(spread(1, n, 1, cap - len(keep)) if cap - len(keep) >= 2 else [])
+    return sorted(keep)
+
+
 def schedules(ctx, rng, thorough):
     scenarios = [
         [['load', 'HPO', 'v2023-10-09'], ['load', 'HPO', 'v2023-10-09']],
@@ -638,8 +753,9 @@ def schedules(ctx, rng, thorough):
         per = max(6, n // 2 + 2)
         # all two-switch schedules: 0 runs a steps, 1 runs b steps, 0 finishes, 1 finishes (and the mirror image)
         step = 1 if thorough else 2
-        for a in range(0, per + 1, step):
-            for b in range(1, per + 1, step):
+        cap = 28 if thorough else 14          # a loader with hundreds of boundaries (chunked transfers): evenly spread switch points
+        for a in spread(0, per, step, cap):
+            for b in spread(1, per, step, cap):
                 for first in (0, 1):
                     sched = [first] * a + [1 - first] * b + [first] * 40 + [1 - first] * 40
                     if run_schedule(ctx, jobs, sched, 'schedules.two-switch') is False:
